@@ -161,7 +161,9 @@ func sliceHdr(cd gen.Codecs, key bool) []byte {
 // genItems draws the publish sequence of one incarnation.  variant selects the
 // parameter sets / metadata (distinct per incarnation), serialBase keeps every
 // NAL unit and audio frame unique across incarnations.
-func genItems(t *rapid.T, cd gen.Codecs, inc, variant, fragMs int) (items []gen.Item, tail string) {
+// churn: one video sequence header change between two GOPs (for AVC: to
+// parameter sets with other picture dimensions).
+func genItems(t *rapid.T, cd gen.Codecs, inc, variant, fragMs int, churn bool) (items []gen.Item, tail string) {
 	serial := uint32(inc+1) * 100000
 	next := func() uint32 { serial++; return serial }
 	ts := rapid.Uint32Range(0, 3000).Draw(t, "startTs")
@@ -252,6 +254,13 @@ func genItems(t *rapid.T, cd gen.Codecs, inc, variant, fragMs int) (items []gen.
 		if tail == "mid-gop" && g == ngops-1 && n < 2 {
 			n = 2
 		}
+		if churn && g == 1 {
+			nv := 1 // AVC variants 0 and 2 share one SPS (768x320), variant 1 has another (720x1280)
+			if variant == 1 {
+				nv = 0
+			}
+			items = append(items, gen.Item{Kind: "vsh", Ts: ts, Variant: nv})
+		}
 		for f := 0; f < n; f++ {
 			if f == 0 {
 				lastKeyTs = ts
@@ -323,7 +332,8 @@ func genCase(t *rapid.T) Case {
 		}
 		in.Input = rapid.SampledFrom(inputs).Draw(t, "input")
 		in.Codecs = genCodecs(t, i, in.Input)
-		in.Items, in.Tail = genItems(t, in.Codecs, i, (v0+i)%3, c.FragMs)
+		churn := (in.Input == "rtmp" || in.Input == "cust" || in.Input == "pull") && in.Codecs.Video != "" && rapid.IntRange(0, 2).Draw(t, "churn") == 0
+		in.Items, in.Tail = genItems(t, in.Codecs, i, (v0+i)%3, c.FragMs, churn)
 		ends := []string{"close", "close", "kick", "idle"}
 		if in.Input == "cust" {
 			ends = []string{"close"}
@@ -428,6 +438,16 @@ func dummyHolding(in Inc, waitMs int) bool {
 }
 
 func remuxedKind(k string) bool { return k == "rtsp" || k == "gb" }
+
+func countKindItems(in Inc, kind string) int {
+	n := 0
+	for _, it := range in.Items {
+		if it.Kind == kind {
+			n++
+		}
+	}
+	return n
+}
 
 func mediaCount(in Inc) (video, audio int) {
 	for _, it := range in.Items {
@@ -556,6 +576,12 @@ func classify(c Case) (bool, []string) {
 				labels = append(labels, "dummy-audio:pass-through")
 			}
 		}
+		if nv := countKindItems(in, "vsh"); nv > 1 {
+			labels = append(labels, "header-change:"+in.Codecs.Video)
+			if in.Codecs.Video == "avc" {
+				nt = true
+			}
+		}
 		if c.Push > 0 && (in.Input == "rtmp" || in.Input == "rtsp") {
 			if in.PushLate {
 				labels = append(labels, "push-end:"+in.End+"/handshake-in-flight")
@@ -626,6 +652,6 @@ func uniq(in []string) []string {
 func TestInputEnd(t *testing.T) {
 	pbt.Run(t, pbt.Spec[Case]{
 		ID: "C16", Name: "input-end", Gen: genCase, Run: run, Classify: classify,
-		Quick: 200, Thorough: 1500, Isolate: true,
+		Quick: 170, Thorough: 1500, Isolate: true,
 	})
 }
